@@ -335,6 +335,30 @@ func (a *A) ruleSlotStamp(W *types.Named, fn *ssa.Function) {
 				}
 			}
 			if stamped == nil {
+				// the row appended is a copy written out as a literal with its Slot field set in the literal
+				if cc, isApp := isBuiltinCall(c, "append"); isApp {
+					for _, e := range appendedElems(cc) {
+						ld, isLd := e.(*ssa.UnOp)
+						if !isLd || ld.Op != token.MUL {
+							continue
+						}
+						al, isAl := ld.X.(*ssa.Alloc)
+						if !isAl || !l.literalCopy(al) {
+							continue
+						}
+						for _, r := range *al.Referrers() {
+							if fa, isFA := r.(*ssa.FieldAddr); isFA && fieldVarOf(fa).Name() == "Slot" {
+								for _, rr := range *fa.Referrers() {
+									if st, isSt := rr.(*ssa.Store); isSt && st.Addr == ssa.Value(fa) {
+										stamped = TermOf(st.Val, nil)
+									}
+								}
+							}
+						}
+					}
+				}
+			}
+			if stamped == nil {
 				// stamped afterwards: once the rows are collected, a full scan of the batch sets every row's Slot
 				// (`for i := range batch { batch[i].Slot = slot }`), before any return hands the batch out
 				for _, l2 := range rangeLoops(fn) {
